@@ -36,6 +36,12 @@ Theorem C14_find_complete : forall bytes parse salvage fuel res, cab_find bytes 
 Proof. exact find_complete. Qed.
 Print Assumptions C14_find_complete.
 
+(* the reported offsets are strictly increasing: no cabinet is reported twice, and the list is in file order *)
+Theorem C14_find_reports_each_once_in_order : forall bytes parse salvage fuel res,
+  cab_find bytes parse salvage fuel 0 [] = Some res -> incr_from 0 res.
+Proof. exact find_increasing. Qed.
+Print Assumptions C14_find_reports_each_once_in_order.
+
 (* the scan alone: from the searching state it stops exactly at the first signature that has 16 more bytes behind it *)
 Theorem C14_scan_stops_at_first_signature : forall l pos,
   match first_cand l pos a0 with
